@@ -7,7 +7,9 @@
      synthetic_oneof_names_fresh / _eq_protoc   the loop over the fields
    and two local facts of the descriptor construction (parser/result.go):
      reserved_names_iff           addReservedNames, either spelling: what one reserved statement reports and records
-     range_max                    a range written with max ends at the limit handed in (half-open for messages) *)
+     range_max                    a range written with max ends at the limit handed in (half-open for messages)
+     message_ranges_limit         the ranges of a message descriptor are the ranges written in its own body, each
+                                  bounded by the limit of that message itself (message set or not) *)
 From Coq Require Import List NArith ZArith Bool Lia Arith FinFun.
 From PV Require Import Model.MiniProto Model.Lower Model.ProtocDescriptor.
 Import ListNotations.
@@ -349,5 +351,95 @@ Proof.
     replace (int32_max <? s) with false by (symmetry; apply Z.ltb_ge; lia).
     cbn [orb andb]. replace (int32_max <? s) with false by (symmetry; apply Z.ltb_ge; lia).
     destruct e; reflexivity.
+Qed.
+
+(* ------------------------------------------------------------------------------------------ *)
+(* which limit a message hands to its ranges *)
+
+Definition msg_limit (body : list melem) : Z :=
+  match is_msgset body with MsYes => msgset_max | _ => field_max end.
+Definition own_rsvr (mt : Z) (e : melem) : list (Z * Z) :=
+  match e with MReserved rs => fst (lower_ranges (fun r => msg_range r mt) rs) | _ => [] end.
+Definition own_extr (mt : Z) (e : melem) : list (Z * Z) :=
+  match e with
+  | MExtensions rs => fst (lower_ranges (fun r => msg_range r mt) rs)
+  | MExtensionsOpt rs _ => fst (lower_ranges (fun r => msg_range r mt) rs)
+  | _ => []
+  end.
+
+Definition same_ranges (a b : macc) : Prop := a_rsvr b = a_rsvr a /\ a_extr b = a_extr a.
+
+Lemma same_refl a : same_ranges a a. Proof. split; reflexivity. Qed.
+Lemma same_trans a b c : same_ranges a b -> same_ranges b c -> same_ranges a c.
+Proof. intros [H1 H2] [H3 H4]. split; congruence. Qed.
+Lemma same_add_errs a es : same_ranges a (add_errs a es). Proof. split; reflexivity. Qed.
+Lemma same_add_field a fd : same_ranges a (add_field a fd). Proof. split; reflexivity. Qed.
+Lemma same_add_nested a m : same_ranges a (add_nested a m). Proof. split; reflexivity. Qed.
+Lemma same_add_ext a fd : same_ranges a (add_ext a fd). Proof. split; reflexivity. Qed.
+
+Lemma lower_elem_ranges : forall syn mt d e a,
+  a_rsvr (lower_elem syn mt d a e) = a_rsvr a ++ own_rsvr mt e /\
+  a_extr (lower_elem syn mt d a e) = a_extr a ++ own_extr mt e.
+Proof.
+  intros syn mt d e a. destruct e; cbn [own_rsvr own_extr]; rewrite ?app_nil_r.
+  - simpl. destruct (as_field syn mt f). split; reflexivity.
+  - simpl. destruct (lower_map syn mt (S d) key val nm num opts) as [[fd md] es]. split; reflexivity.
+  - simpl. repeat match goal with |- context [match ?X with pair _ _ => _ end] => destruct X end. split; reflexivity.
+  - simpl.
+    match goal with |- context [match ?F ?p elems with pair _ _ => _ end] =>
+      assert (Hst : forall els ac, same_ranges (fst ac) (fst (F ac els)));
+      [ induction els as [|x r IHr]; intros ac; [apply same_refl|];
+        destruct x; simpl; try apply IHr;
+        repeat match goal with |- context [match ?X with pair _ _ => _ end] => destruct X end;
+        (eapply same_trans; [|apply IHr]); cbn [fst]; split; reflexivity
+      | destruct (F p elems) as [a2 n] eqn:E; specialize (Hst elems p); rewrite E in Hst; cbn [fst] in Hst;
+        destruct Hst as [H1 H2]; destruct n; cbn; rewrite ?H1, ?H2; split; reflexivity ]
+    end.
+  - simpl. repeat match goal with |- context [match ?X with pair _ _ => _ end] => destruct X end. split; reflexivity.
+  - simpl. match goal with |- context [lower_enum syn ?E] => destruct (lower_enum syn E) end. split; reflexivity.
+  - simpl.
+    match goal with |- context [match ?F ?p elems with pair _ _ => _ end] =>
+      assert (Hst : forall els ac, same_ranges (fst ac) (fst (F ac els)));
+      [ induction els as [|x r IHr]; intros ac; [apply same_refl|];
+        destruct x; simpl; try apply IHr;
+        repeat match goal with |- context [match ?X with pair _ _ => _ end] => destruct X end;
+        (eapply same_trans; [|apply IHr]); cbn [fst]; split; reflexivity
+      | destruct (F p elems) as [a2 n] eqn:E; specialize (Hst elems p); rewrite E in Hst; cbn [fst] in Hst;
+        destruct Hst as [H1 H2]; destruct n; cbn; rewrite ?H1, ?H2; split; reflexivity ]
+    end.
+  - simpl. match goal with |- context [lower_ranges ?G ?R] => destruct (lower_ranges G R) end. cbn. rewrite ?app_nil_r. split; reflexivity.
+  - simpl. match goal with |- context [lower_ranges ?G ?R] => destruct (lower_ranges G R) end. cbn. rewrite ?app_nil_r. split; reflexivity.
+  - simpl. match goal with |- context [lower_ranges ?G ?R] => destruct (lower_ranges G R) end. cbn. rewrite ?app_nil_r. split; reflexivity.
+  - simpl. match goal with |- context [add_reserved_names ?A ?B ?C ?D ?E] => destruct (add_reserved_names A B C D E) as [[? ?] ?] end. cbn. rewrite ?app_nil_r. split; reflexivity.
+  - simpl. rewrite ?app_nil_r. split; reflexivity.
+Qed.
+
+Lemma fold_lower_ranges : forall syn mt d body a,
+  a_rsvr (fold_left (lower_elem syn mt d) body a) = a_rsvr a ++ flat_map (own_rsvr mt) body /\
+  a_extr (fold_left (lower_elem syn mt d) body a) = a_extr a ++ flat_map (own_extr mt) body.
+Proof.
+  induction body as [|e r IH]; intros a; cbn [fold_left flat_map].
+  - rewrite !app_nil_r. split; reflexivity.
+  - destruct (IH (lower_elem syn mt d a e)) as [H1 H2]. destruct (lower_elem_ranges syn mt d e a) as [H3 H4].
+    rewrite H1, H2, H3, H4, <- !app_assoc. split; reflexivity.
+Qed.
+
+(* a message written inside another message (or at file level): its descriptor is appended to the nested types, and the
+   reserved / extension ranges of that descriptor are the ranges written in its own body, in source order, each bounded
+   by the limit of this message itself - msgset_max iff its own body carries the option set to true - whatever the
+   limit of the enclosing message is *)
+Theorem message_ranges_limit_lemma : forall syn mt d a nm body, (S d < 32)%nat ->
+  exists md, a_nested (lower_elem syn mt d a (MMessage nm body)) = a_nested a ++ [md] /\
+    dm_rsvr md = flat_map (own_rsvr (msg_limit body)) body /\
+    dm_extr md = flat_map (own_extr (msg_limit body)) body /\
+    dm_msgset md = match is_msgset body with MsYes => true | _ => false end.
+Proof.
+  intros syn mt d a nm body Hd. simpl. apply Nat.ltb_lt in Hd. rewrite Hd.
+  match goal with |- context [match (if ?c then ?t else ?e) with pair _ _ => _ end] => destruct (if c then t else e) as [[? ?] ?] end.
+  eexists. split; [reflexivity|]. cbn [dm_rsvr dm_extr dm_msgset].
+  match goal with |- context [fold_left (lower_elem syn ?L (S d)) body macc0] =>
+    destruct (fold_lower_ranges syn L (S d) body macc0) as [H1 H2] end.
+  cbn [macc0 a_rsvr a_extr app] in H1, H2. unfold msg_limit.
+  destruct (is_msgset body); (split; [exact H1|split; [exact H2|reflexivity]]).
 Qed.
 Close Scope Z_scope.
